@@ -46,7 +46,10 @@ TEndBridge == /\ Is("EndBridge") /\ l' = l + 1
 TConfig == Is("Config") /\ l' = l + 1 /\ Trace[l].ttl_s >= 3 * 3600 /\ UNCHANGED <<acc, pend, offs>>
 \* an unrelated entry was planted in the bridge's filter, N seconds short of its TTL (its expiry must not disturb the rest)
 TPlant == Is("Plant") /\ l' = l + 1 /\ Trace[l].ok /\ UNCHANGED <<acc, pend, offs>>
-TNext == TPlant \/ TConfig \/ TReset \/ TSubmit \/ TResult \/ TEndBridge
+\* ("Wedged cid h": 15 s after the handshake arrived the server had neither returned nor gone back to reading - never
+\* allowed: there is no action for it.  The driver skips what follows in that process: the filter's locks are process wide.)
+TSkipped == Is("Skipped") /\ l' = l + 1 /\ UNCHANGED <<acc, pend, offs>>
+TNext == TSkipped \/ TPlant \/ TConfig \/ TReset \/ TSubmit \/ TResult \/ TEndBridge
 TraceSpec == TInit /\ [][TNext]_tvars
 HW == TLCSet(1, IF l - 1 > TLCGet(1) THEN l - 1 ELSE TLCGet(1))
 TraceAccepted == IF TLCGet(1) = Len(Trace) THEN TRUE ELSE PrintT(<<"REJECTED_AFTER", TLCGet(1)>>) /\ FALSE
